@@ -9,11 +9,14 @@ claimed = {
  'C04': "deleteBlock never removes a block at or below a fully symbolic finalized height and a refused delete changes nothing; an accepted block raises the stored finalized height to max(previous, precommitted) in the same batch with a finalization event iff raised; sync helper arithmetic is under C19.",
  'C05': "apply-then-delete of a valid block restores the exact database contents (all indexes, consensus store), cached tip and BFT heights apart from the finalized marker / temp copy; diffdb Commit/RevertDiff inverse and Diff codec (harnesses in pkg/db/diffdb).",
  'C13': "reduction of crash atomicity to the trusted atomicity of pebble's Apply: on every explored path of processValidated / deleteBlock there is exactly one batch write for a committed step and none for a rejected one, no direct writes, application commit/revert before the write, and a restart on the resulting database finds a complete tip with its revert diff and consensus window. Crash points inside pebble are outside (trusted contract).",
+ 'C06': "aggregate-commit acceptance (height window incl. next parameter change, weights/threshold/bit positions, signed certificate = own block), self-consistency of the node's own Aggregate/GetAggregateCommit with its verification, GetAggregateCommit height choice, singleCommitValidator soundness, pool select/upgrade/cleanup, under an algebraic BLS model cross-checked against real blst on every replay.",
  'C07': "AreDistinctHeadersContradicting: symmetry, generator separation, equality with the LIP-0014 definition and with the semantic characterisation, all six 32-bit fields symbolic.",
  'C08': "varint round trips for all 64-bit values, canonical acceptance of readUint, strict canonical decoding of Transaction up to 13/16 bytes, and generated round-trip harnesses for every *_codec.go type (lengths by pattern, contents symbolic).",
  'C09': "every generated decoder on arbitrary buffers up to 3/5(6) bytes, every codec.Reader entry point, aggregation-bitmap readers: no panic, loops within unwinding bounds.",
  'C16': "EventLogger snapshot/restore keeps exactly pre-snapshot and unrevertible events with consecutive indices (sequences of up to 3/5 events).",
+ 'C17': "request/response layer with a fake host: a reply arriving during send is not lost; one request vs an asynchronous responder for all interleavings within the context-switch budget with the timer firing at any later moment: no deadlock, correct correlation, no leaked pending entry.",
  'C18': "connection-gater penalty arithmetic and gates, expiry sweep, rate limiter counters and interval reset, penalty/ban => disconnect, malformed envelope / unknown procedure => ban and disconnect, with fake libp2p host/stream and the real multiaddr code.",
+ 'C20': "lock discipline of the block cache (no re-acquisition of a held mutex); bulk lookups (headers by IDs/heights, transactions by IDs, blocks by range) return every existing item exactly once for all interleavings, with a vector-clock race monitor whose reports are confirmed by go test -race on the native replay. General data-race freedom of the whole node is outside.",
  'C19': "getBestNodeInfo over up to 3/4 symbolic peers for every map order and random pick; sync height-list helper arithmetic for all 32-bit inputs below 2^31.",
 }
 na_reasons = {}
